@@ -73,13 +73,14 @@ func (m *txnModel) rollback(ok bool) bool {
 }
 
 type txnOp struct {
-	kind     int // 0 get 1 commit 2 rollback 3 get-cancel 4 range 5 buffer-range 6 commit-twice 7 rollback-twice
-	pause    pause
-	cancelAt int
-	stopAt   int // range: fn returns false at this index (-1 never)
-	panicAt  int // range: fn panics at this index (-1 never)
-	putIn    int // range: fn triggers a Put at this index (-1 never)
-	goexitAt int // range: fn ends its goroutine (runtime.Goexit) at this index (-1 never)
+	kind       int // 0 get 1 commit 2 rollback 3 get-cancel 4 range 5 buffer-range 6 commit-twice 7 rollback-twice
+	pause      pause
+	cancelAt   int
+	stopAt     int  // range: fn returns false at this index (-1 never)
+	panicAt    int  // range: fn panics at this index (-1 never)
+	putIn      int  // range: fn triggers a Put at this index (-1 never)
+	goexitAt   int  // range: fn ends its goroutine (runtime.Goexit) at this index (-1 never)
+	cleanFirst bool // range: roll back pending reads before the call
 }
 
 type sharedHist struct {
@@ -124,6 +125,7 @@ func c02Run() {
 				op.kind = 7
 			}
 			if op.kind == 4 || op.kind == 5 {
+				op.cleanFirst = simrt.Chance(1, 2)
 				switch simrt.Draw(4) {
 				case 0:
 					op.stopAt = simrt.DrawRange(0, 3)
@@ -378,11 +380,16 @@ type c02Out struct {
 // c02Range runs bigbuff.Range or Buffer.Range with a scripted callback and checks it against the
 // model.
 func c02Range(r *bufRun, k *bufCons, m *txnModel, op txnOp, inBufRange *int, putExtra func()) bool {
-	// a Range on a consumer with uncommitted reads would commit them with its first value; keep the
-	// model simple: start from a clean state
+	// A Range on a consumer that holds uncommitted reads commits them together with its first value
+	// (the model's commit does the same) and counts them when it decides where the buffer ends; half of
+	// the time the consumer is cleaned first.
 	if m.cur > 0 {
-		if !m.rollback(r.rollback(k).ok) {
-			return false
+		if op.cleanFirst {
+			if !m.rollback(r.rollback(k).ok) {
+				return false
+			}
+		} else {
+			simrt.Probe("range_with_uncommitted_reads")
 		}
 	}
 	ctx, cancel := context.WithCancel(r.stop)
@@ -492,7 +499,14 @@ func c02Range(r *bufRun, k *bufCons, m *txnModel, op txnOp, inBufRange *int, put
 			simrt.Failf("C02.range-error", "consumer %d: Range returned %v", k.id, err)
 			return false
 		}
-		// Get failed inside Range: nothing in flight, model unchanged
+		// Either the context check in front of the Get failed (nothing touched) or the Get itself failed
+		// (Range's deferred Rollback then also returned any reads that were pending before the call); the
+		// two are indistinguishable from outside when no callback ran, so normalise with a Rollback whose
+		// result is not judged.
+		if m.cur > 0 {
+			r.rollback(k)
+			m.cur = 0
+		}
 		simrt.Probe("range_ended_by_cancel")
 	default:
 		if op.kind == 4 && !stopped {
@@ -500,7 +514,7 @@ func c02Range(r *bufRun, k *bufCons, m *txnModel, op txnOp, inBufRange *int, put
 			return false
 		}
 	}
-	if m.cur != 0 && !panicked && !goexited {
+	if calls > 0 && m.cur != 0 && !panicked && !goexited {
 		simrt.Failf("C02.range-model", "internal: model has %d pending reads after Range", m.cur)
 		return false
 	}
@@ -509,6 +523,9 @@ func c02Range(r *bufRun, k *bufCons, m *txnModel, op txnOp, inBufRange *int, put
 		simrt.Probe("buffer_range_to_end")
 		visited := map[Val]bool{}
 		for v := range m.committed {
+			visited[v] = true
+		}
+		for _, v := range m.known { // delivered earlier and still uncommitted: not owed again
 			visited[v] = true
 		}
 		// ... and everything put before its last callback returned: the end-of-buffer decision is taken
